@@ -47,6 +47,31 @@ def scaling_events(chk, batch, rng, est, form, getter, x, c, dt):
         batch.add(ev, {'est': est, 'form': form, 'key': key, 'c': c, 'seed': chk.seed, 'n': len(x)})
 
 
+def decision_of(d, ip, nfft, crit, thr):
+    """The subspace dimension chosen for data d, observed through the public API only: the MUSIC pseudo-spectrum
+    obtained with the automatic choice is compared with the ones obtained with each explicit NSIG (MUSIC does not
+    depend on the amplitude, so the index of the matching one is the decision).  Returns that NSIG."""
+    from spectrum.eigenfre import eigen
+    kw = {'threshold': thr} if thr is not None else {'criteria': crit}
+    auto = np.asarray(eigen(d, ip, NSIG=None, method='music', NFFT=nfft, **kw)[0])
+    best, bestdev = -1, float('inf')
+    for ns in range(0, ip):
+        try:
+            cand = np.asarray(eigen(d, ip, NSIG=ns, method='music', NFFT=nfft)[0])
+        except Exception:
+            continue
+        dev = zoo.rel_dev(cand, auto)
+        if dev < bestdev:
+            best, bestdev = ns, dev
+    if bestdev > 1e-9:
+        raise RuntimeError('the automatic choice matches no explicit NSIG (%g)' % bestdev)
+    return best
+
+
+def same_decision(ok1, a, ok2, b):
+    return (a if ok1 else -1), (b if ok2 else -2)
+
+
 def run(chk):
     core.run_jobs(chk, theorem_jobs(chk))
     rng = np.random.RandomState(300 + chk.seed)
@@ -88,11 +113,10 @@ def run(chk):
             from spectrum.eigenfre import eigen
             for crit in ('aic', 'mdl'):
                 def nsig(d):
-                    S = eigen(d, 8, NSIG=None, method='music', NFFT=64, criteria=crit)[1]
-                    from spectrum.eigenfre import _get_signal_space
-                    return int(_get_signal_space(S, 2 * min(len(d) - 8, 100), NSIG=None, threshold=None, criteria=crit))
+                    return decision_of(d, 8, 64, crit, None)
                 ok1, a = call_guard(nsig, x)
                 ok2, b = call_guard(nsig, c * x)
+                a, b = same_decision(ok1, a, ok2, b)
                 batch.add({'ev': 'decision', 'what': 'NSIG-' + crit, 'dt': dt, 'raised': not (ok1 and ok2),
                            'a': a if ok1 else -1, 'b': b if ok2 else -2}, {'c': c, 'seed': chk.seed})
             # a large data matrix (many singular values enter the criterion)
@@ -100,21 +124,19 @@ def run(chk):
                 xl = zoo.signal(rng, 128, cplx, kind='tones')
                 for crit in ('aic', 'mdl'):
                     def nsig_big(d):
-                        from spectrum.eigenfre import _get_signal_space
-                        S = eigen(d, 48, NSIG=None, method='music', NFFT=128, criteria=crit)[1]
-                        return int(_get_signal_space(S, 2 * min(len(d) - 48, 100), NSIG=None, threshold=None, criteria=crit))
+                        return decision_of(d, 48, 128, crit, None)
                     ok1, a = call_guard(nsig_big, xl)
                     ok2, b = call_guard(nsig_big, c * xl)
+                    a, b = same_decision(ok1, a, ok2, b)
                     batch.add({'ev': 'decision', 'what': 'NSIG-%s-IP48' % crit, 'dt': dt, 'raised': not (ok1 and ok2),
                                'a': a if ok1 else -1, 'b': b if ok2 else -2}, {'c': c, 'seed': chk.seed})
             # ... and chosen by a threshold on the singular values (relative to the smallest one)
             for thr in (1.5, 3.0, 10.0, 50.0):
                 def nsig_t(d):
-                    from spectrum.eigenfre import _get_signal_space
-                    S = eigen(d, 8, NSIG=2, method='music', NFFT=64)[1]
-                    return int(_get_signal_space(S, 2 * min(len(d) - 8, 100), NSIG=None, threshold=thr))
+                    return decision_of(d, 8, 64, 'aic', thr)
                 ok1, a = call_guard(nsig_t, x)
                 ok2, b = call_guard(nsig_t, c * x)
+                a, b = same_decision(ok1, a, ok2, b)
                 batch.add({'ev': 'decision', 'what': 'NSIG-threshold', 'dt': dt, 'raised': not (ok1 and ok2),
                            'a': a if ok1 else -1, 'b': b if ok2 else -2}, {'c': c, 'threshold': thr, 'seed': chk.seed})
                 for meth in ('music', 'ev'):
